@@ -21,8 +21,8 @@ NA = {
 
 CHECKS = {
     'C03': dict(engine='store-sim', cat='exploration', ref='4/C03',
-        text='Seeded search over store histories (create/add/sync/close/reopen/create_associated/save) with swarm-randomised content (all six field shapes x dtypes, species subsets, unset optionals, extremes), file layouts and cache sizes; every read served from a file is compared field by field with a plain-Python snapshot taken at add time. Sampling, not proof.',
-        note='Trusts netCDF4/HDF5 variable I/O (real, un-faulted), the harness snapshot/comparator and the model of which field sets a session sees. NaN, zero-length trajectories and caches smaller than one trajectory are not generated. Species outside a file\'s fixed species list may be refused cleanly (lenient reading, DESIGN 4/C03).',
+        text='Seeded search over store histories (create/add/sync/close/reopen/create_associated incl. recomputed field sets and override/save, late field-set registration, caller-held objects) with swarm-randomised content (all six field shapes x dtypes, species subsets, unset optionals, extremes), file layouts and cache sizes; every read served from a file is compared field by field with a plain-Python snapshot taken at add time. Sampling, not proof.',
+        note='Trusts netCDF4/HDF5 variable I/O (real, un-faulted), the harness snapshot/comparator and the model of which field sets a session sees. NaN and caches smaller than one trajectory are not generated; zero-point trajectories only in in-memory stores. Species outside a file\'s fixed species list may be refused cleanly (lenient reading, DESIGN 4/C03).',
         tech='deterministic simulation: seeded operation histories against a reference model, fork-per-run, ddmin replay files'),
     'C07': dict(engine='store-sim', cat='exploration', ref='4/C07',
         text='Seeded search over interleavings of create/add/get/iterate/len/sync/close/reopen-append/reopen-read over 1-3 files with the cache-size knob owned by the simulator (1 MiB caches force the evict-and-reload path), checked op by op against a Python list and by an after-close audit. Sampling, not proof.',
@@ -33,7 +33,7 @@ CHECKS = {
         note='In-memory (unsaved) stores are not looked up by id (the code has no index there); duplicate ids are never generated.',
         tech='deterministic simulation: seeded operation histories against a dict model, ddmin replay files'),
     'C09': dict(engine='store-sim', cat='exploration', ref='4/C09',
-        text='Seeded merge scenarios: 1-6 part files of uneven sizes, explicit lists in any order or numbered patterns, with/without ids and separately merged associated files; the merged store is read at every index (seams in particular), looked up by id, and compared with the concatenation of the model lists. Sampling, not proof.',
+        text='Seeded merge scenarios: 1-6 part files of uneven sizes, explicit lists in any order, numbered patterns or symbolic links, reused output paths, with/without ids and separately merged associated files; the merged store is read at every index (seams in particular), looked up by id, and compared with the concatenation of the model lists. Sampling, not proof.',
         note='Parts are produced by the same simulator (so C03/C07 defects surface there first); merged stores are opened read-only as the API requires.',
         tech='deterministic simulation: seeded merge histories against list concatenation, ddmin replay files'),
     'C10': dict(engine='store-sim', cat='fault_enumeration', ref='4/C10',
@@ -42,20 +42,20 @@ CHECKS = {
         tech='deterministic simulation with fault injection: enumerated fault points per seeded merge scenario, seeded rejected-add histories'),
     'C14': dict(engine='query-sim', cat='exploration', ref='4/C14',
         text='Seeded histories over live query objects (build, to_sql repeatedly, execute, partial consumption, interleaved generators, re-execution) on generated mission databases, compared with an independent Python evaluation of the predicate over the joined tables. Sampling, not proof.',
-        note='SQLite random() is outside the simulator: sampling is only checked for subset/order and a wide size band. Weakest fit of the claimed properties (no fault kinds).',
+        note='SQLite random() is a seeded user-defined function; the time zone, the working directory (relative database path) and the lifetime of the Database object are owned by the simulator. The schedule importer is bypassed. Weakest fit of the claimed properties (no fault kinds).',
         tech='deterministic simulation: seeded query-object histories against a Python reference evaluator'),
     'C17': dict(engine='builder-sim', cat='exploration', ref='4/C17',
-        text='Seeded call histories on long-lived builders with natural failures (unknown airport, airport above cruise, out-of-envelope mass, missing weather) and failures injected at seeded evaluate/weather/airport call counts, each call compared bit for bit with a brand-new builder under the same fault plan. Sampling, not proof.',
+        text='Seeded call histories on long-lived builders with natural failures (unknown airport, airport above cruise, out-of-envelope mass, missing weather) and failures injected at seeded evaluate/weather/airport call counts, each call compared bit for bit with a brand-new builder under the same fault plan (reference flight before or after, so that mission objects are short-lived); an unreadable supplemental airport table is one more fault kind. Sampling, not proof.',
         note='Uses the shipped sample performance model and test weather files; collaborators are wrapped by delegating fault-injecting pass-throughs.',
         tech='deterministic simulation with fault injection: seeded call histories, differential against fresh builders'),
     'C18': dict(engine='config-sim', cat='exploration', ref='4/C18',
-        text='Seeded load/fail/reset/read/mutate histories on the configuration singleton with invalid values, missing files and injected EIO/EACCES on the k-th open/stat of a load, against a two-state reference machine with its own overlay computation. Sampling, not proof.',
+        text='Seeded load/fail/reset/read/mutate histories on the configuration singleton with invalid values, missing files and injected EIO/EACCES on the k-th open/stat of a load, against a two-state reference machine with its own overlay computation; the warnings filter, the working directory and a relative AEIC_PATH are process state the simulator moves between loads. Sampling, not proof.',
         note='In-place mutation of list objects obtained from the configuration is Python aliasing and is not checked.',
         tech='deterministic simulation with fault injection: seeded histories against a reference state machine'),
     'C20': dict(engine='thread-sim', cat='exploration', ref='4/C20',
-        text='Two or three real threads constructing stores are stepped one source line (thorough: also one bytecode) at a time by a seeded scheduler (uniform, sticky, PCT); the history check requires at most one owning thread over every explored interleaving. Sampling of schedules, not exhaustive.',
+        text='Two or three real threads constructing stores are stepped one source line - in 30 % (quick) / 40 % (thorough) of the runs one bytecode inside the constructor - at a time by a seeded scheduler (uniform, sticky, PCT, sequential), with forks of the process as one more thread action; the history check requires at most one owning thread over every explored interleaving. Sampling of schedules, not exhaustive.',
         note='Pre-emption at Python line/bytecode boundaries of AEIC frames; locks created by AEIC code are simulator-aware; C-level operations are atomic under the GIL.',
-        tech='deterministic simulation: baton-passing real threads under a seeded line-level scheduler'),
+        tech='deterministic simulation: baton-passing real threads under a seeded line- and bytecode-level scheduler'),
 }
 
 ENGINES = [
